@@ -262,6 +262,8 @@ def install(ip):
     def d_update(ip, d, a, k):
         if a:
             src = a[0]
+            if isinstance(src, PObj) and "__data__" in src.fields:
+                src = src.fields["__data__"]
             if isinstance(src, PDict) and not src.symbolic:
                 for kk, vv in src.items.items():
                     d_set_item(ip, d, [_unhash(kk), vv], {})
